@@ -2816,14 +2816,14 @@ def _run(ctx, cnt, rng, fast):
     try:
         pool = [{'name': fn, 'src': {'text': text}} for fn, text in gen_girs]
         for path in files:
-            if os.path.getsize(path) < ctx.n(250000, 3000000):
+            if os.path.getsize(path) < ctx.n(120000, 3000000):
                 pool.append({'name': os.path.basename(path).replace('-expected', ''),
                              'src': {'repo': os.path.relpath(path, REPO)}})
         for e in corpus:
             if e.get('kind') == 'gir':
                 pool.append({'name': e.get('filename', 'Corpus-1.0.gir'), 'src': {'text': e['text']}})
         hist_cases = [e['history'] for e in corpus if e.get('kind') == 'history']
-        for _ in range(ctx.n(45, 500) if pool else 0):
+        for _ in range(ctx.n(30, 500) if pool else 0):
             hist_cases.append(gen_history(rng, pool))
         hdocs, hreal = [], []
         for h in hist_cases:
